@@ -27,6 +27,8 @@ def obligations(tier):
         Ob('E.local', 'E', 'local transfers under transient/persistent OSErrors at every point: exact bytes or bounded error, rewound payload, no leftovers',
            '5 ops x 7 points x 0..6 faults x 4 sizes x raw/wrapped = 1960', [L + 'upload', L + 'upload_stream', L + 'download', L + 'download_stream'],
            module=H, func='e_local_faults', timeout=900, shards=4),
+        Ob('E.list', 'E', 'local listing under directory-scan faults: complete or an error, never silently incomplete', '10 scan positions x 3 fault counts x 3 prefixes = 90',
+           [L + 'list_files', 'replicat.utils.fs:iterative_scandir'], module=H, func='e_local_list_faults', timeout=300),
         Ob('E.remote', 'E', 'S3-compatible and B2 adapters against fake services: 503/500/429/connection failure/dropped download/expired token x position x 0,1,2,3,5,never-ending consecutive faults: exact bytes, rewound payload, complete listings, bounded error',
            '2 adapters x 7 ops x 6 fault kinds x 6 counts x 3 sizes x 2 positions = 3024', ['replicat.backends.s3c:S3Compatible._put_object_stream', 'replicat.backends.s3c:S3Compatible.download_stream',
             'replicat.backends.b2:B2.upload_stream', 'replicat.backends.b2:B2.download_stream', 'replicat.backends.b2:_wait_and_trigger_reauth', 'replicat.utils:requires_auth'],
